@@ -319,6 +319,29 @@ theorem spawn_failure_refused_or_has_worker (sh : Shared) (cid : Nat) (hn : cid 
   · simp [h, hn]
   · simp [h]
 
+/-- **FC09e, strengthened (seed C09-e): accepted ⇒ a LIVE worker exists.**  In every reachable state in which `_shutdown` is
+false (the submitter read it in the same critical section): if the thread creation fails after the push of `cid` and the call
+is accepted, then some entry `w` of `_threads` is a worker THREAD that has neither removed itself from `_threads` nor returned —
+not merely "`_threads` is non-empty".  The model's `_threads` holds only threads that the registering step itself created
+(`create`: `threads ++ [n]` with `.spawn newWorker`); the source is tied to that by `skel_spawn` (the only insertion into
+`_threads` is `emplace(t.get_id(), std::move(t))` of the `std::thread t` constructed just before — a placeholder entry does not
+build). -/
+theorem spawn_failure_accepted_has_live_worker (cfg : Cfg) (hc : CfgOk cfg) (sched : List Choice) (cid : Nat)
+    (hs : (run cfg sched).sh.shutdown = false)
+    (ha : (spawnFailed { (run cfg sched).sh with tasks := (run cfg sched).sh.tasks ++ [cid] }).2 = false) :
+    ∃ (w : Nat) (th : Thread), w ∈ (run cfg sched).sh.threads ∧ (run cfg sched).thr[w]? = some th ∧ liveWorker th = true := by
+  have hne : (run cfg sched).sh.threads ≠ [] := by
+    intro e
+    simp [spawnFailed, e] at ha
+  obtain ⟨w, hw⟩ := List.exists_mem_of_ne_nil _ hne
+  obtain ⟨th, hget, hiw, hg⟩ := (allInv_run cfg hc.joined hc.norestart sched).w.live hs w hw
+  exact ⟨w, th, hw, hget, by simp [liveWorker, hiw, hg]⟩
+
+/-- non-vacuity: after 12 steps of the example run the pool is not shut down, one worker is registered, and a failed creation
+would be accepted (the registered worker is the live one) -/
+example : (run exCfg (exSched.take 12)).sh.shutdown = false ∧
+    (spawnFailed { (run exCfg (exSched.take 12)).sh with tasks := (run exCfg (exSched.take 12)).sh.tasks ++ [7] }).2 = false := by decide
+
 /-- non-vacuity: both outcomes occur -/
 example : (spawnFailed { tasks := [3] ++ [4] }).2 = true ∧ (spawnFailed { tasks := [3] ++ [4] }).1.tasks = [3] ∧
     (spawnFailed { tasks := [3] ++ [4], threads := [1] }).2 = false := by decide
@@ -383,7 +406,9 @@ between (the caller holds `_mutex`); `spawnWorker` (constructor) is lock / spawn
 theorem skel_spawn :
     unit "spawnWorkerLocked" = [("create", "thread", ""), ("lambda", "worker", ""), ("register", "_threads", "")] ∧
     unit "spawnWorker" = [("lock", "_mutex", ""), ("call", "spawnWorkerLocked", "_mutex"), ("unlock", "_mutex", "_mutex")] ∧
-    unit "discardNewest" = [("size", "_tasks", ""), ("front", "_tasks", ""), ("pop", "_tasks", ""), ("swap", "_tasks", "")] := by
+    unit "discardNewest" = [("size", "_tasks", ""), ("front", "_tasks", ""), ("pop", "_tasks", ""), ("swap", "_tasks", "")] ∧
+    -- every insertion into `_threads` inserts the constructed thread under its own id (no placeholder, no second insertion)
+    Gen.TpSkel.createdThreadVar = "t" ∧ Gen.TpSkel.registrations = [("t.get_id()", "std::move(t)")] := by
   decide
 
 /-- what `transW` does (Model/ThreadPool.lean), in textual order of the lambda -/
